@@ -8,6 +8,7 @@ package sftp
 
 import (
 	"bytes"
+	"context"
 	"fmt"
 	"io"
 	"os"
@@ -16,10 +17,16 @@ import (
 	"time"
 )
 
+type wregion struct {
+	off  int64
+	data []byte
+}
+
 type callLog struct {
-	tr *tracer
-	g  int
-	n  int
+	tr    *tracer
+	g     int
+	n     int
+	wrote []wregion
 }
 
 func (c *callLog) call(op, arg string) {
@@ -28,7 +35,7 @@ func (c *callLog) call(op, arg string) {
 }
 
 func (c *callLog) ret(op, got, want string, err error, extra kv) {
-	f := kv{"g": c.g, "n": c.n, "op": op, "got": got, "want": want, "err": errStr(err)}
+	f := kv{"g": c.g, "n": c.n, "op": op, "got": got, "want": want, "err": errStr(err), "noerr": true}
 	for k, v := range extra {
 		f[k] = v
 	}
@@ -37,7 +44,26 @@ func (c *callLog) ret(op, got, want string, err error, extra kv) {
 
 // doOp performs one client operation whose reply is a function of its argument.
 func doOp(cl *Client, f *File, fh string, pr *peer, lg *callLog, kind int, arg string, salt int) {
-	switch kind % 9 {
+	switch kind % 11 {
+	case 9: // single-packet WriteAt (header and payload are two writes) at a region unique to this call
+		off := int64(4096 + (salt%1500)*24)
+		data := bytes.Repeat([]byte{byte(1 + salt%250)}, 24)
+		lg.call("WriteAt", fmt.Sprint(off))
+		n, err := f.WriteAt(data, off)
+		lg.ret("WriteAt", fmt.Sprint(n), "24", err, kv{"noerr": true})
+		lg.wrote = append(lg.wrote, wregion{off, data})
+		return
+	case 10: // a listing whose context is cancelled while OPENDIR is outstanding; the peer answers it later
+		ctx, cancel := context.WithCancel(context.Background())
+		lg.call("ReadDirCancelled", arg)
+		go func() {
+			waitFor(2*time.Second, func() bool { return pr.nHeld() > 0 })
+			cancel()
+		}()
+		_, err := cl.ReadDirContext(ctx, arg)
+		// either outcome is fine for THIS call (cancelled, or answered first); it must not disturb the others
+		lg.ret("ReadDirCancelled", "", "", nil, kv{"cancelerr": errStr(err)})
+		return
 	case 0:
 		lg.call("Stat", arg)
 		fi, err := cl.Stat(arg)
@@ -129,6 +155,12 @@ func TestVerif_OwnReply(t *testing.T) {
 		tr.reset(kv{"kind": "ownreply", "G": G, "R": R, "batch": batch, "maxpacket": mp, "conc": conc})
 		pr := newPeer(t, tr)
 		pr.hold = true
+		pr.c2s.afterWrite = func(b []byte) {
+			// a chunk that is shorter than the frame it announces is a header whose payload follows in a second write
+			if len(b) >= 4 && int(uint32(b[0])<<24|uint32(b[1])<<16|uint32(b[2])<<8|uint32(b[3])) > len(b)-4 {
+				time.Sleep(100 * time.Microsecond)
+			}
+		}
 		cl, err := pr.client(MaxPacketChecked(mp), MaxConcurrentRequestsPerFile(conc))
 		if err != nil {
 			t.Fatalf("client: %v", err)
@@ -153,13 +185,20 @@ func TestVerif_OwnReply(t *testing.T) {
 			t.Fatalf("open shared: %v", err)
 		}
 		var wg sync.WaitGroup
+		var wmu sync.Mutex
+		var wrote []wregion
 		for g := 1; g <= G; g++ {
 			wg.Add(1)
 			go func(g int) {
 				defer wg.Done()
 				lg := &callLog{tr: tr, g: g}
+				defer func() {
+					wmu.Lock()
+					wrote = append(wrote, lg.wrote...)
+					wmu.Unlock()
+				}()
 				for k := 0; k < R; k++ {
-					kind := (h + g*3 + k*5) % 9
+					kind := (h + g*3 + k*5) % 11
 					doOp(cl, shared, shared.handle, pr, lg, kind, fmt.Sprintf("/p/h%d/g%d/k%d", h, g, k), h*100+g*10+k)
 				}
 			}(g)
@@ -175,6 +214,19 @@ func TestVerif_OwnReply(t *testing.T) {
 		close(stop)
 		pr.setHold(false)
 		pr.answerAll()
+		// what the peer stored must be what the callers wrote (each region belongs to one call)
+		if hung == 0 {
+			content := pr.fileCopy(shared.handle)
+			lgv := &callLog{tr: tr, g: 0}
+			for _, w := range wrote {
+				lgv.call("VerifyWrite", fmt.Sprint(w.off))
+				got := ""
+				if int(w.off)+len(w.data) <= len(content) {
+					got = hexs(content[w.off : int(w.off)+len(w.data)])
+				}
+				lgv.ret("VerifyWrite", got, hexs(w.data), nil, nil)
+			}
+		}
 		shared.Close()
 		cerr := make(chan error, 1)
 		go func() { cerr <- cl.Close() }()
